@@ -27,6 +27,10 @@ var sigma = map[string]proj.Day{
 	"mild":          {Tmin: 6, Tavg: 10, Tmax: 14, Precip: 1, Rad: 10, Wind: 2.5, RH: 75, Sun: 5, ET0: 1.5},
 	"zero-flux":     {Tmin: -1, Tavg: 0.5, Tmax: 2, Precip: 0, Rad: 0.5, Wind: 1, RH: 100, Sun: 0, ET0: 0}, // saturated air, hardly any radiation: potential ET is clipped to 0
 	"hot-shower":    {Tmin: 18, Tavg: 26, Tmax: 34, Precip: 2.5, Rad: 26, Wind: 5, RH: 35, Sun: 12, ET0: 8},
+	// reference ET of the per-year weather files missing (the missing-value code) / a small negative reading / a very large one
+	"et0-missing":  {Tmin: 12, Tavg: 18, Tmax: 24, Precip: 0, Rad: 20, Wind: 2, RH: 60, Sun: 10, ET0: -99.9},
+	"et0-negative": {Tmin: 2, Tavg: 5, Tmax: 8, Precip: 0, Rad: 3, Wind: 2, RH: 95, Sun: 1, ET0: -0.25},
+	"et0-huge":     {Tmin: 22, Tavg: 30, Tmax: 38, Precip: 0, Rad: 30, Wind: 8, RH: 20, Sun: 14, ET0: 14},
 	"grow":          {Tmin: 10, Tavg: 16, Tmax: 22, Precip: 3, Rad: 18, Wind: 2, RH: 70, Sun: 8, ET0: 3},
 }
 
